@@ -366,3 +366,37 @@ def expander_applied_to_template_only(chk, ctx, rule):
                        message="clone() is the recursive template expander: applied to the input it renames and evaluates members of the DATA whose names end in .$ (against the input "
                                "and the context object) and raises UnboundLocalError for a scalar input; a copy of data is made with copy.deepcopy")
     chk.floor(rule, n, 3, "applications of the template expander")
+
+
+# ---------------------------------------------------------------------------------------------------------------------
+# C03.R14 / C04 (D60): the retry arm of handle_error republishes the state's event BEFORE it tears the failed attempt down: the tear-down
+# acknowledges the events held for the terminated branches, and until the retry event is on the queue those are all a restart could resume from.
+def retry_arm_publishes_before_teardown(chk, ctx):
+    se = ctx.mod("state_engine")
+    he = se.func("StateEngine.notify.handle_error")
+    tears = [c for c in body_nodes(he) if isinstance(c, ast.Call) and callname(c) == "self.check_pending_results"]
+    chk.floor("C03.R14", len(tears), 1, "tear-downs in handle_error")
+    for t in tears:
+        # the statement list that contains the (conditional) tear-down
+        cur = t
+        block = None
+        while cur is not None and cur is not he.node:
+            par = se.parent(cur)
+            for fld in ("body", "orelse", "finalbody"):
+                lst = getattr(par, fld, None)
+                if isinstance(lst, list) and cur in lst:
+                    if any(isinstance(x, ast.Call) and callname(x) == "self.event_dispatcher.publish" for s in lst for x in ast.walk(s)):
+                        block = (lst, lst.index(cur))
+                    break
+            if block:
+                break
+            cur = par
+        if block is None:
+            chk.ob("C03.R14", "handle_error: the tear-down sits in the arm that republishes the event", False, "", key="StateEngine.notify.handle_error | tear-down outside a publishing arm", where=se.line(t), message="")
+            continue
+        lst, i = block
+        after = [s for s in lst[i + 1:] for x in ast.walk(s) if isinstance(x, ast.Call) and callname(x) == "self.event_dispatcher.publish"]
+        before = [s for s in lst[:i] for x in ast.walk(s) if isinstance(x, ast.Call) and callname(x) == "self.event_dispatcher.publish"]
+        chk.ob("C03.R14", "handle_error: the retry event is published before the held branch events are released", bool(before) and not after, "",
+               key="StateEngine.notify.handle_error | check_pending_results (acknowledges held events) runs before the retry event is published", where=se.line(t),
+               message="a crash between the acknowledgements and the publish loses the execution: nothing is left unacknowledged or queued to resume it from")
